@@ -32,6 +32,35 @@ def py_eq(a, b):
 _qcnt = [0]
 
 
+def has_ite(t):
+    todo, seen = [t], set()
+    while todo:
+        x = todo.pop()
+        if x.get_id() in seen:
+            continue
+        seen.add(x.get_id())
+        if z3.is_app(x):
+            if x.decl().kind() == z3.Z3_OP_ITE:
+                return True
+            todo.extend(x.children())
+    return False
+
+
+def forall(vs, body, patterns=()):
+    """ForAll with the given patterns unless a pattern is not admissible for z3 (contains if-then-else)"""
+    pats = []
+    for p in patterns:
+        terms = [p] if z3.is_expr(p) else None
+        if terms is None or any(has_ite(x) for x in terms):
+            if terms is None:
+                pats.append(p)      # MultiPattern: trust
+            continue
+        pats.append(p)
+    if pats and len(pats) == len(patterns):
+        return z3.ForAll(vs, body, patterns=pats)
+    return z3.ForAll(vs, body)
+
+
 def qvar(prefix="q"):
     _qcnt[0] += 1
     return z3.Int("%s!%d" % (prefix, _qcnt[0]))
@@ -85,7 +114,7 @@ def seq_concat(a, b):
     r = fresh("cat", a.s)
     j = qvar("jk")
     ax = [seq_len(r) == seq_len(a.t) + seq_len(b.t),
-          z3.ForAll([j], seq_get(r, j) == ite(j < seq_len(a.t), seq_get(a.t, j), seq_get(b.t, j - seq_len(a.t))),
+          forall([j], seq_get(r, j) == ite(j < seq_len(a.t), seq_get(a.t, j), seq_get(b.t, j - seq_len(a.t))),
                     patterns=[seq_get(r, j)])]
     return V(r, a.s), ax
 
@@ -101,7 +130,7 @@ def seq_slice(s, lo, hi):
     r = fresh("slc", s.s)
     j = qvar("js")
     ax = [seq_len(r) == ite(hi - lo > 0, hi - lo, z3.IntVal(0)),
-          z3.ForAll([j], seq_get(r, j) == seq_get(s.t, lo + j), patterns=[seq_get(r, j)])]
+          forall([j], seq_get(r, j) == seq_get(s.t, lo + j), patterns=[seq_get(r, j)])]
     return V(r, s.s), ax
 
 
@@ -110,10 +139,10 @@ def seq_insert(s, i, x):
     r = fresh("ins", s.s)
     j = qvar("ji")
     ax = [seq_len(r) == seq_len(s.t) + 1,
-          z3.ForAll([j], seq_get(r, j) == ite(j < i, seq_get(s.t, j), ite(j == i, x.t, seq_get(s.t, j - 1))),
+          forall([j], seq_get(r, j) == ite(j < i, seq_get(s.t, j), ite(j == i, x.t, seq_get(s.t, j - 1))),
                     patterns=[seq_get(r, j)]),
           # the same fact seen from the old sequence (so that selects on s also instantiate it)
-          z3.ForAll([j], seq_get(s.t, j) == ite(j < i, seq_get(r, j), seq_get(r, j + 1)),
+          forall([j], seq_get(s.t, j) == ite(j < i, seq_get(r, j), seq_get(r, j + 1)),
                     patterns=[seq_get(s.t, j)])]
     return V(r, s.s), ax
 
@@ -122,7 +151,7 @@ def seq_delete(s, i):
     r = fresh("del", s.s)
     j = qvar("jd")
     ax = [seq_len(r) == seq_len(s.t) - 1,
-          z3.ForAll([j], seq_get(r, j) == ite(j < i, seq_get(s.t, j), seq_get(s.t, j + 1)),
+          forall([j], seq_get(r, j) == ite(j < i, seq_get(s.t, j), seq_get(s.t, j + 1)),
                     patterns=[seq_get(r, j)])]
     return V(r, s.s), ax
 
@@ -131,7 +160,7 @@ def seq_reverse(s):
     r = fresh("rev", s.s)
     j = qvar("jr")
     ax = [seq_len(r) == seq_len(s.t),
-          z3.ForAll([j], seq_get(r, j) == seq_get(s.t, seq_len(s.t) - 1 - j), patterns=[seq_get(r, j)])]
+          forall([j], seq_get(r, j) == seq_get(s.t, seq_len(s.t) - 1 - j), patterns=[seq_get(r, j)])]
     return V(r, s.s), ax
 
 
@@ -141,7 +170,7 @@ def seq_range(lo, hi):
     r = fresh("rng", sort)
     j = qvar("jg")
     ax = [seq_len(r) == ite(hi - lo > 0, hi - lo, z3.IntVal(0)),
-          z3.ForAll([j], seq_get(r, j) == lo + j, patterns=[seq_get(r, j)])]
+          forall([j], seq_get(r, j) == lo + j, patterns=[seq_get(r, j)])]
     return V(r, sort), ax
 
 
